@@ -101,6 +101,13 @@ fn confirm(ctx: &Ctx, v: &ViolationRec) -> Result<Value, MachineryError> {
         )));
     }
     let mut cli_json = Value::Null;
+    if v.case.mode == Mode::Run && hang {
+        let c1 = subject::run_cli_at_once(&ctx.bin, v.case.src.as_bytes(), "case.sd", std::time::Duration::from_secs(8))?;
+        if !c1.timed_out && c1.signal != Some(9) {
+            return Err(MachineryError(format!("batch run hangs but the CLI run ends ({})", v.case.src)));
+        }
+        return Ok(json!({"timed_out": true}));
+    }
     if v.case.mode == Mode::Run {
         let c1 = subject::run_cli_simple(&ctx.bin, v.case.src.as_bytes())?;
         let c2 = subject::run_cli_simple(&ctx.bin, v.case.src.as_bytes())?;
@@ -158,7 +165,10 @@ fn finish(ctx: &mut Ctx) -> Result<i32, MachineryError> {
     let (commit, dirty) = subject::repo_commit();
     let mut lines = vec![];
     let viols = ctx.violations.clone();
+    // confirmations run with a fresh hang budget
+    subject::HANGS.store(0, std::sync::atomic::Ordering::SeqCst);
     for v in &viols {
+        subject::HANGS.store(0, std::sync::atomic::Ordering::SeqCst);
         let cli = confirm(ctx, v)?;
         if cli == json!("transient-hang") {
             ctx.violation_count = ctx.violation_count.saturating_sub(1);
